@@ -14,7 +14,19 @@ Open Scope N_scope.
 
 Definition name := N.
 
+(* assignment targets of for / set: names, tuples of targets, and leaves the Python compiler
+   cannot assign to (literals, the empty tuple is fine for Python but not for jinja's check) *)
+Inductive tgt := TName (n : name) | TConst | TTuple (items : list tgt).
+
+(* nodes.Name.can_assign / Tuple.can_assign / Const (no can_assign: False) *)
+Fixpoint can_assign (t : tgt) : bool :=
+  match t with TName _ => true | TConst => false | TTuple l => forallb can_assign l end.
+(* CPython: "cannot assign to literal" anywhere inside a target *)
+Fixpoint py_target_ok (t : tgt) : bool :=
+  match t with TName _ => true | TConst => false | TTuple l => forallb py_target_ok l end.
+
 Inductive stmt :=
+| SAssignT (t : tgt)                              (* {% set T = x %} / {% for T in x %} *)
 | SText
 | SBreak
 | SContinue
@@ -28,6 +40,7 @@ Inductive stmt :=
 | SBlock (body : list stmt).                      (* {% block %}: compiled into its own function *)
 
 Inductive py :=
+| PAssign (t : tgt)
 | PSimple
 | PBreak
 | PContinue
@@ -51,17 +64,43 @@ Definition CALLER : name := 1.
 Definition KWARGS : name := 2.
 Definition VARARGS : name := 3.
 
-Fixpoint loads (n : name) (s : stmt) {struct s} : bool :=
-  let loadsl := fix loadsl (l : list stmt) : bool := match l with [] => false | x :: r => loads n x || loadsl r end in
+(* compiler.UndeclaredNameVisitor over a macro body, in document order: a load of a tracked name
+   marks it found; any other occurrence of a name (a parameter of a nested macro / call block, an
+   assignment target) stops tracking it; blocks are not entered; the visit stops once every
+   tracked name is found.  State: (tracked, found, stopped). *)
+Definition ustate := (list name * list name * bool)%type.
+Definition remove_name (n : name) (l : list name) : list name := filter (fun m => negb (m =? n)) l.
+Definition subsetb (a b : list name) : bool := forallb (fun x => memb x b) a.
+Definition u_load (n : name) (u : ustate) : ustate :=
+  let '(tr, fo, st) := u in
+  if st then u else
+  if memb n tr then
+    let fo' := if memb n fo then fo else n :: fo in
+    (tr, fo', subsetb tr fo' && subsetb fo' tr)
+  else u.
+Definition u_store (n : name) (u : ustate) : ustate :=
+  let '(tr, fo, st) := u in if st then u else (remove_name n tr, fo, st).
+Fixpoint tgt_names (t : tgt) : list name :=
+  match t with TName n => [n] | TConst => [] | TTuple l => flat_map tgt_names l end.
+
+Fixpoint uscan (s : stmt) (u : ustate) {struct s} : ustate :=
+  let uscans := fix uscans (l : list stmt) (u : ustate) : ustate :=
+    match l with [] => u | x :: r => uscans r (uscan x u) end in
   match s with
-  | SUse m => n =? m
-  | SIf b e | SFor _ b e => loadsl b || loadsl e
-  | SInline b | SMacro _ b | SCallBlock _ _ b => loadsl b
-  | SBlock _ => false
-  | _ => false
+  | SUse n => u_load n u
+  | SAssignT t => fold_left (fun u n => u_store n u) (tgt_names t) u
+  | SIf b e | SFor _ b e => uscans e (uscans b u)
+  | SInline b => uscans b u
+  | SMacro ps b | SCallBlock ps _ b => uscans b (fold_left (fun u n => u_store n u) ps u)
+  | SBlock _ => u
+  | _ => u
   end.
+Fixpoint uscans (l : list stmt) (u : ustate) : ustate :=
+  match l with [] => u | x :: r => uscans r (uscan x u) end.
+Definition found_specials (body : list stmt) : list name :=
+  snd (fst (uscans body ([CALLER; KWARGS; VARARGS], [], false))).
 Definition specials (ps : list name) (body : list stmt) : list name :=
-  filter (fun n => existsb (loads n) body && negb (memb n ps)) [CALLER; KWARGS; VARARGS].
+  filter (fun n => memb n (found_specials body) && negb (memb n ps)) [CALLER; KWARGS; VARARGS].
 
 Section Gen.
 
@@ -75,6 +114,7 @@ Section Gen.
                   end
       end in
     match s with
+    | SAssignT t => if can_assign t then Ok [PAssign t] else SyntaxErr
     | SText => Ok [PSimple]
     | SBreak => if in_loop then Ok [PBreak] else SyntaxErr
     | SContinue => if in_loop then Ok [PContinue] else SyntaxErr
@@ -128,6 +168,7 @@ Section PyOk.
 
   Fixpoint py_ok (in_loop : bool) (p : py) {struct p} : bool :=
     match p with
+    | PAssign t => py_target_ok t
     | PSimple => true
     | PBreak | PContinue => in_loop
     | PCall kws => nodupb (map pynorm kws)
@@ -144,6 +185,7 @@ Inductive fact := FLoopCtl (is_break inside : bool) | FDef (ps : list name) | FC
 
 Fixpoint facts (in_loop : bool) (p : py) {struct p} : list fact :=
   match p with
+  | PAssign _ => []
   | PSimple => []
   | PBreak => [FLoopCtl true in_loop]
   | PContinue => [FLoopCtl false in_loop]
